@@ -1615,7 +1615,10 @@ func (e *Engine) conv(tDst, tSrc types.Type, x value) value {
 					}
 					return f
 				}
-				e.unsupported("symbolic int -> float conversion")
+				if e.specDepth > 0 {
+					panic(specAbort{"float"})
+				}
+				panic(pathEnd{kind: "outside", reason: "floating point on symbolic values (REST X-Server-Timeout, float parameters) is outside the encoding"})
 			}
 		}
 		if w, _, ok := typeWidth(ut); ok && w > 0 {
